@@ -24,6 +24,10 @@ class _Subst(ast.NodeTransformer):
                 and ('self.' + n.attr) in self.env:
             return copy.deepcopy(self.env['self.' + n.attr])
         self.generic_visit(n)
+        # (a helper's parameter that stands for the node: `node.last` has just become `self.last`)
+        if isinstance(n.ctx, ast.Load) and isinstance(n.value, ast.Name) and n.value.id == 'self' \
+                and ('self.' + n.attr) in self.env:
+            return copy.deepcopy(self.env['self.' + n.attr])
         return n
 
     def visit_Lambda(self, n):
@@ -486,10 +490,26 @@ class SymEval:
                 static = any(src(d) == 'staticmethod' for d in callee.node.decorator_list)
                 if not any(src(d) in ('property', 'classmethod') for d in callee.node.decorator_list):
                     return callee, (0 if static else 1)
+        # an explicit call of a private helper base class:  _QueueBacked.__init__(self, upstream, Queue(maxsize=n), **kwargs)
+        if isinstance(f, ast.Attribute) and isinstance(f.value, ast.Name) and f.value.id.startswith('_') and self.cls is not None \
+                and call.args and isinstance(call.args[0], ast.Name) and call.args[0].id == 'self' and f.attr not in self.no_splice:
+            from .model import Class
+            base = self.model.resolve_name(fn.module, f.value)
+            if isinstance(base, Class) and base in getattr(self.model, 'private_bases', ()) and base in (self.cls.mro or ()):
+                callee = base.methods.get(f.attr)
+                if callee is not None and not any(src(d) in ('property', 'classmethod', 'staticmethod') for d in callee.node.decorator_list):
+                    return callee, 0
         if isinstance(f, ast.Name) and f.id.startswith('_') and not f.id.startswith('__'):
             from .model import Func
             t = self.model.resolve_name(fn.module, f)
             if isinstance(t, Func) and t.owner is None and t.parent is None:
+                return t, 0
+        # ... or the same through a module alias of the package:  core._split_function_kwargs(kwargs)
+        if isinstance(f, ast.Attribute) and f.attr.startswith('_') and not f.attr.startswith('__') and isinstance(f.value, ast.Name) \
+                and f.value.id != 'self':
+            from .model import Func
+            t = self.model.resolve_name(fn.module, f)
+            if isinstance(t, Func) and t.owner is None and t.parent is None and t.module.name.startswith('streamz'):
                 return t, 0
         return None
 
